@@ -1,0 +1,116 @@
+"""Verification hooks.
+
+Inert unless the environment variable ``CQCL_GUPPYLANG_VERIF`` is ``1`` *and* a harness
+installs callbacks. Used to (a) let a harness decide the order in which hash-ordered
+containers inside the compiler are visited and (b) record the state of the dataflow
+analyses after every worklist iteration.
+"""
+
+import os
+from collections.abc import Callable, Iterator
+from typing import Any
+
+ON: bool = os.environ.get("CQCL_GUPPYLANG_VERIF") == "1"
+
+#: ``scheduler(site, candidates) -> chosen candidate``; ``None`` = native order
+scheduler: Callable[[str, list[Any]], Any] | None = None
+
+#: ``tracer(site, **fields)``; ``None`` = no tracing
+tracer: Callable[..., None] | None = None
+
+
+class _ScheduledSet(set):  # type: ignore[type-arg]
+    """A set whose `pop` and iteration order are decided by the installed scheduler."""
+
+    _site: str = ""
+
+    def pop(self) -> Any:
+        if scheduler is None or len(self) == 0:
+            return set.pop(self)
+        x = scheduler(self._site, list(set.__iter__(self)))
+        self.remove(x)
+        return x
+
+    def __iter__(self) -> Iterator[Any]:
+        if scheduler is None:
+            return set.__iter__(self)
+        rest = list(set.__iter__(self))
+        out = []
+        while rest:
+            x = scheduler(self._site, list(rest))
+            rest.remove(x)
+            out.append(x)
+        return iter(out)
+
+
+class _ScheduledKeys:
+    """`dict.keys()` stand-in whose set operations yield scheduled sets."""
+
+    def __init__(self, d: dict[Any, Any], site: str) -> None:
+        self._d, self._site = d, site
+
+    def _wrap(self, s: Any) -> Any:
+        return sched_set(set(s), self._site)
+
+    def __or__(self, other: Any) -> Any:
+        return self._wrap(set(self._d) | set(other))
+
+    def __ror__(self, other: Any) -> Any:
+        return self._wrap(set(other) | set(self._d))
+
+    def __sub__(self, other: Any) -> Any:
+        return self._wrap(set(self._d) - set(other))
+
+    def __and__(self, other: Any) -> Any:
+        return self._wrap(set(self._d) & set(other))
+
+    def __iter__(self) -> Iterator[Any]:
+        return iter(self._d)
+
+    def __len__(self) -> int:
+        return len(self._d)
+
+    def __contains__(self, x: object) -> bool:
+        return x in self._d
+
+    def __eq__(self, other: object) -> bool:
+        return set(self._d) == set(other)  # type: ignore[call-overload]
+
+    def __le__(self, other: Any) -> bool:
+        return set(self._d) <= set(other)
+
+    def __ge__(self, other: Any) -> bool:
+        return set(self._d) >= set(other)
+
+    def __hash__(self) -> int:  # pragma: no cover
+        raise TypeError("unhashable")
+
+
+class _ScheduledDict(dict):  # type: ignore[type-arg]
+    _site: str = ""
+
+    def keys(self) -> Any:  # type: ignore[override]
+        return _ScheduledKeys(self, self._site)
+
+
+def sched_set(s: Any, site: str) -> Any:
+    """Returns `s`, or a scheduled copy of it when a scheduler is installed."""
+    if scheduler is None:
+        return s
+    r = _ScheduledSet(s)
+    r._site = site
+    return r
+
+
+def sched_dict(d: Any, site: str) -> Any:
+    """Returns `d`, or a copy whose `keys()` set-operations are scheduled."""
+    if scheduler is None:
+        return d
+    r = _ScheduledDict(d)
+    r._site = site
+    return r
+
+
+def trace(site: str, **fields: Any) -> None:
+    if tracer is not None:
+        tracer(site, **fields)
